@@ -176,7 +176,11 @@ func runAlias(path string) {
 			case "reopen":
 				c.Close()
 				var err error
-				c, err = syz.NewCollection(syz.CollectionOptions{Name: path, FileMode: syz.ReadWrite})
+				mode := syz.ReadWrite
+				if len(f) > 1 && f[1] == "ro" {
+					mode = syz.ReadOnly
+				}
+				c, err = syz.NewCollection(syz.CollectionOptions{Name: path, FileMode: mode})
 				if err != nil {
 					fmt.Fprintln(out, "ERR", err)
 					return
